@@ -103,23 +103,16 @@ theorem c15_remove_before_load (c : Ctx) (fs : FS)
               cases c.faults.write with
               | some e => simp [hm, ho', writeW, mkdirW, loaded, eff, hwe, hw]
               | none => simp [hm, ho', writeW, mkdirW, loaded, eff, hwe, hw]
-  cases hfs : fs c.flags.outFile with
-  | absent => simp only []; exact key _ (by simp [eff])
-  | file b =>
+  cases hf : c.faults.remove with
+  | some e' =>
+    cases e' with
+    | notExist => simp only []; exact key _ (by simp [eff])
+    | msg m => simp [eff]
+  | none =>
     simp only []
-    cases hf : c.faults.remove with
-    | none => simp only []; exact key _ (by simp [eff])
-    | some e' =>
-      cases e' with
-      | notExist => simp only []; exact key _ (by simp [eff])
-      | msg m => simp [eff]
-  | dir =>
-    simp only []
-    cases hf : c.faults.remove with
-    | none => simp only []; exact key _ (by simp [eff])
-    | some e' =>
-      cases e' with
-      | notExist => simp only []; exact key _ (by simp [eff])
-      | msg m => simp [eff]
+    cases hfs : fs c.flags.outFile with
+    | absent => simp only []; exact key _ (by simp [eff])
+    | file b => simp only []; exact key _ (by simp [eff])
+    | dir => simp only []; exact key _ (by simp [eff])
 
 end Moq.Cli
